@@ -106,8 +106,15 @@ class Ranks:
     def __init__(self, names):
         self.names = sorted(set(names), key=lambda s: s.encode("utf-8"))
         self.r = {n: i + 1 for i, n in enumerate(self.names)}
+        self.unknown = {}
 
     def __getitem__(self, n):
+        """total: a name the project does not contain (only an implementation answer can hold one) gets a sentinel
+        index that no configured name has, so that the Coq spec predicate sees a foreign locale / key / namespace"""
+        if n not in self.r:
+            if n not in self.unknown:
+                self.unknown[n] = 900000 + len(self.unknown)
+            return self.unknown[n]
         return self.r[n]
 
 
@@ -135,10 +142,23 @@ def payload_of(tag):
 
 
 def parse_impl(line, lr, kr, nr):
-    """returns (coq impl_result, info dict)"""
+    """returns (coq impl_result, info dict); total: an answer that cannot be read is IOther (no spec accepts it)"""
+    try:
+        term, info = parse_impl_inner(line, lr, kr, nr)
+    except (ValueError, IndexError, KeyError, TypeError) as e:
+        return "IOther", {"raw": line[:2000], "kind": "unreadable", "parse_error": repr(e)}
+    foreign = {k: v for k, v in (("locales", lr.unknown), ("keys", kr.unknown), ("namespaces", nr.unknown)) if v}
+    if foreign:
+        info["names_not_in_the_project"] = {k: sorted(v) for k, v in foreign.items()}
+    return term, info
+
+
+def parse_impl_inner(line, lr, kr, nr):
     info = {"raw": line[:2000]}
     if line == "PANIC":
         return "IOther", dict(info, kind="panic")
+    if line.startswith("RAW"):
+        return "IOther", dict(info, kind="rejected-before-merge")
     parts = line.split("|")
     if parts[0] == "ERR":
         kind, loc, path = parts[1], parts[2], parts[3]
@@ -208,6 +228,10 @@ def coq_case(proj, suppress, line):
     lr, kr, nr = ranks_of(proj)
     impl, info = parse_impl(line, lr, kr, nr)
     order = info.get("locales") or cfg_order(proj)
+    if sorted(order) != sorted(cfg_order(proj)):
+        # the implementation's locale list is not the configured one: no spec accepts that
+        info["kind"] = "unexpected-locale-list"
+        impl, order = "IOther", cfg_order(proj)
     nss = []
     for ns in (proj.get("namespaces") or ["-"]):
         files = ["(%d, %s)" % (lr[l], coq_forest(proj["files"]["%s/%s" % (ns, l)][1], kr)) for l in order]
@@ -224,17 +248,21 @@ def run_harness(exe, dirs, mode="merge", timeout=900):
     rc, out, err = core.sh([exe], input=inp, timeout=timeout)
     lines = out.splitlines()
     if rc != 0 or len(lines) != len(dirs):
-        raise core.Infra("h_merge: %d lines for %d cases (rc=%s) %s" % (len(lines), len(dirs), rc, err[-400:]))
+        # the harness process died (abort / stack overflow are not unwinding panics): find the case, one process each
+        lines = []
+        for d in dirs:
+            rc1, out1, _ = core.sh([exe], input="%s\t%s\n" % (mode, d), timeout=120)
+            l1 = out1.splitlines()
+            lines.append(l1[0] if rc1 == 0 and len(l1) == 1 else "PANIC")
     return lines
 
 
 def build_variant(ctx, features):
-    """build h_merge with the given features and keep a copy of the binary under .cache/work/bin"""
-    bindir = core.cargo_build("h_merge", features=features)
-    d = os.path.join(core.CACHE, "work", "bin")
-    os.makedirs(d, exist_ok=True)
-    dst = os.path.join(d, "h_merge_%s_%s" % (ctx.id, "_".join(features)))
-    shutil.copy2(os.path.join(bindir, "h_merge"), dst)
+    """build h_merge with the given features.  One target directory per feature set: `target/debug/h_merge` is a single
+    path for every variant, and checks running side by side (C03/C07 with json, C19 with yaml/json5) would otherwise
+    replace each other's binary between the build and its use."""
+    bindir = core.cargo_build("h_merge", features=features, target_sub="target_merge_" + "_".join(features))
+    dst = os.path.join(bindir, "h_merge")
     rc, out, err = core.sh([dst, "features"], timeout=30)
     want = {f: True for f in features}
     got = dict(x.split("=") for x in out.split())
@@ -310,8 +338,6 @@ def evaluate(ctx, exe, projs, suppress, tag, fn):
     lines = run_harness(exe, dirs)
     items, metas = [], []
     for (kind, p), line in zip(projs, lines):
-        if line.startswith("RAW"):
-            raise core.Infra("generated project rejected before merging: %s\n%s" % (line[:300], json.dumps(p)[:600]))
         term, info = coq_case(p, suppress, line)
         items.append(term)
         metas.append({"kind": kind, "project": p, "suppress": suppress, "impl": info})
